@@ -71,3 +71,12 @@ _add('C10',
      'for that customer at its start instant, and a sample that is not a non-negative number (batch: non-negative integer) ends the run with an error. '
      'K1: observed runs on all regions + a malformed-sample stream (negative, nan, non-numeric, non-integer batch).',
      'Samples are logged inside the scripted distribution objects (the oracle), independently of the engine attributes they are compared with.')
+_add('C13',
+     'T1 C13_sound (Coq, induction over event lists of any length): on every accepted run the patience is sampled at arrival; a renege happens '
+     'exactly at arrival + patience, only to a customer whose service has not started and who holds no server, who enters its jockeying '
+     'destination in the same frame with a renege record; after every event no waiting customer has outwaited its patience and its reneging date '
+     'is arrival + patience; every arriving customer with a baulking function baulks iff u < p where p is the value the function returned for the '
+     'TRUE population (so never for p = 0, always for p = 1), a baulker is at the exit at once with a baulk record, anyone else is admitted. '
+     'K1: observed runs with reneging, baulking tables, priorities, pre-emption, schedules and capacities.',
+     'Open finding F-02c (pre-empted customer keeps a reneging date that has passed) is reported as KNOWN-FINDING. The uniform draw is compared '
+     'exactly (numerator over 2^53).')
